@@ -270,7 +270,12 @@ def _tasks_for(pid, tier):
         two_q = [16, 17, 18, 19, 21, 23, 24, 25, 28, 29, 30, 31, 33, 34, 35, 39, 41, 46]   # 46: re-entry inside the last leaver's window (needs k=2)
         three_q = [20, 22, 26, 27, 32, 40]
         glob = [36] if q else [36, 37]
-        return (ds("group", 3 if q else 4, pure, jobs=2) + ds("group", 2, two_q, jobs=6) +
+        # 47-51: a notify registered after re-entry while the previous generation is being woken (known finding F17 lives here;
+        # 50/51 make the re-entering thread block so that one preemption suffices)
+        renotify = ds("group", 1, [49, 50, 51], jobs=6) + ds("group", 1 if q else 2, [47, 48], jobs=6)
+        if not q:
+            renotify += ds("group", 2, [50, 51], jobs=8)
+        return (renotify + ds("group", 3 if q else 4, pure, jobs=2) + ds("group", 2, two_q, jobs=6) +
                 ds("group", 1 if q else 2, three_q, jobs=8) + ds("group", 1, glob, jobs=8) +
                 ds("group", 0 if q else 1, [38], jobs=8))
     if pid == "C08":
